@@ -45,7 +45,7 @@ REQUIRED = ["ops_executed", "rechecks", "handle_reads", "node_writes", "detach_n
             "slices_checked", "index_errors_checked", "branch_segments_checked",
             "tree_segments_checked", "adjacency_checked", "pid_writes",
             "worlds_with_other_column_dtypes"]
-FLOOR = {"quick": 300, "thorough": 6000}
+FLOOR = {"quick": 250, "thorough": 5000}
 SHARDS = {"quick": 8, "thorough": 16}
 
 FCOLS = ["x", "y", "z", "r"]
